@@ -2,7 +2,7 @@ SPEC = dict(
     props_file="Props/C39.v",
     level="proof",
     observers=[dict(cmd="obs_aside", imports=["Model.Aside"], case_type="Aside.case", check="Aside.check_case",
-                    n={"quick": 350, "thorough": 12000}, shard=25, timeout={"quick": 1800, "thorough": 7200})],
+                    n={"quick": 350, "thorough": 4000}, shard=25, timeout={"quick": 1800, "thorough": 7200})],
     search_factor=6,
     rule="scripted scenarios with 2-4 rueidisaside clients (separate rueidis clients, SET NX GET and acquireLock-script "
          "variants) on one fake server running the real scripts under mini-Lua: miss/load/hit rounds, concurrent Gets of one "
